@@ -60,6 +60,8 @@ def _dump(payload, sub):
     tcfg = {'resource-name': 'res', 'mode': op['mode']}
     if op.get('update_keys') is not None:
         tcfg['update_keys'] = op['update_keys']
+    elif op.get('update_keys_none'):
+        tcfg['update_keys'] = None
     kw = {}
     if op.get('updated_column'):
         kw['updated_column'] = op['updated_column']
@@ -188,7 +190,7 @@ class C20(Prop):
     ASSUMPTIONS = ['SQLite only (what the sandbox offers); array / object cells are compared after JSON decoding (they are stored as JSON text)',
                    'a dump that the database rejects (primary-key conflict on append) is predicted by the model: the table is unchanged and the run raises']
     REAL_VS_STUB = {'real': ['dataflows dump_to_sql, tableschema-sql, SQLAlchemy, sqlite'], 'stub': ['none: the database file in the scratch directory is the durable state; each dump is a fresh process']}
-    PROBES = ['mode-rewrite', 'mode-append', 'mode-update', 'update-first-dump-creates-table', 'update-keys-from-primary-key', 'update-keys-explicit', 'update-keys-configured-but-not-update-mode',
+    PROBES = ['mode-rewrite', 'mode-append', 'mode-update', 'update-first-dump-creates-table', 'update-keys-from-primary-key', 'update-keys-explicit', 'update-keys-given-as-None', 'update-keys-configured-but-not-update-mode',
               'repeated-key-in-stream', 'append-pk-conflict-predicted', 'array-object-columns', 'batch-1', 'bloom-off', 'updated-column', 'rewrite-changes-primary-key', 'retry-after-failed-attempt', 'failed-attempt-created-the-table', 'failed-attempt-changed-the-table', 'typed-values-inside-array-object-cells']
     TIERS = {'quick': dict(runs=500, wall=100, run_wall=300),
              'thorough': dict(runs=12000, wall=1700, run_wall=600)}
@@ -224,7 +226,9 @@ class C20(Prop):
             op = {'op': 'dump', 'rows': rows, 'mode': mode, 'batch_size': rng.choice([1, 2, 1000]), 'bloom': rng.random() < 0.6}
             if mode == 'update':
                 if pk and rng.random() < 0.5:
-                    pass                                   # keys from the primary key
+                    # keys from the primary key; half of the time the spec says so explicitly ('update_keys': None). No extra draw.
+                    if len(rows) % 2 == 0:
+                        op['update_keys_none'] = True
                 else:
                     op['update_keys'] = pk or rng.choice([['k'], ['k', 'k2']])
             elif rng.random() < 0.25:
@@ -299,6 +303,8 @@ class C20(Prop):
             if mode == 'update':
                 keys = op.get('update_keys') or pk
                 ctx.probe('update-keys-explicit' if op.get('update_keys') else 'update-keys-from-primary-key')
+                if not op.get('update_keys') and op.get('update_keys_none'):
+                    ctx.probe('update-keys-given-as-None')
                 if model is None:
                     ctx.probe('update-first-dump-creates-table')
             elif op.get('update_keys'):
